@@ -44,6 +44,7 @@ CONSTANTS
   MPickleSlots,    \* TRUE: the slot part is pickled too (repaired); FALSE: only __dict__ (pinned)
   MEqFlat,         \* TRUE (mutant): __eq__ compares the flattened traversals (operators in pre-order, leaves left to right)
   MReuseEqual,     \* TRUE (mutant): when the right operand compares equal to the left one its value is not computed but reused
+  MRampClamp,      \* TRUE (mutant): the shipped linear ramp is computed as min(max(interpolation, initial), final)
   MCacheKeyBuffer, \* TRUE (mutant): the operand cache identifies an array argument by the memory it occupies, not by its content
   MCacheKeyTime    \* TRUE: the operand cache is keyed by the time argument as well (pinned and repaired)
 
@@ -105,6 +106,7 @@ T1 == T0 \cup {n \in {Node(o, a, b) : o \in Ops, a \in T0, b \in T0} : ~(IsNum(n
 
 LeafCode(k) == CASE k = "P2" -> 1 [] k = "P3" -> 2 [] k = "PT" -> 3 [] k = "I" -> 4 [] k = "F" -> 5
                  [] k = "P2b" -> 6 [] k = "P3b" -> 7 [] k = "PTb" -> 8
+                 [] k = "RU" -> 9 [] k = "RD" -> 10 [] k = "CF" -> 11 [] k = "CL" -> 12
 OpCode(o) == CASE o = "add" -> 1 [] o = "sub" -> 2 [] o = "mul" -> 3 [] o = "div" -> 4 [] o = "pow" -> 5
 RECURSIVE H(_)
 H(t) == IF IsLeaf(t) THEN LeafCode(t.k) ELSE (H(t.l) * 31 + H(t.r) * 17 + OpCode(t.op) * 7 + 3) % 10007
@@ -144,6 +146,24 @@ RECURSIVE ValidTree(_)
 ValidTree(tr) == IsLeaf(tr) \/ (~(IsNum(tr.l) /\ IsNum(tr.r)) /\ ValidTree(tr.l) /\ ValidTree(tr.r))
 SameFlat(tr) == {t \in Shapes(PreOps(tr), Fringe(tr)) : ValidTree(t)} \ {tr}
 
+\* (3) leaves shipped with the package in place of the abstract ones: every 3-D leaf becomes ConstantField (variant 1) or
+\*     CurrentLoop (variant 2, where the expression is linear and homogeneous in it), every time-dependent leaf a
+\*     LinearRamp down (variant 1) or up (variant 2) with non-default initial / final / tmin / tmax
+NoP3(tr) == "P3" \notin Kinds(tr)
+RECURSIVE Deg1(_)
+Deg1(tr) == IF IsLeaf(tr) THEN tr.k = "P3"
+            ELSE CASE tr.op \in {"add", "sub"} -> Deg1(tr.l) /\ Deg1(tr.r)
+                   [] tr.op = "mul" -> (Deg1(tr.l) /\ NoP3(tr.r)) \/ (NoP3(tr.l) /\ Deg1(tr.r))
+                   [] tr.op = "div" -> Deg1(tr.l) /\ NoP3(tr.r)
+                   [] OTHER -> FALSE
+ShipKind(k, v, lin) == CASE k = "P3" -> (IF v = 2 /\ lin THEN "CL" ELSE "CF") [] k = "PT" -> (IF v = 1 THEN "RD" ELSE "RU") [] OTHER -> k
+RECURSIVE ShipSubL(_, _, _)
+ShipSubL(tr, v, lin) == IF IsLeaf(tr) THEN Leaf(ShipKind(tr.k, v, lin)) ELSE Node(tr.op, ShipSubL(tr.l, v, lin), ShipSubL(tr.r, v, lin))
+ShipSub(tr, v) == ShipSubL(tr, v, Deg1(tr))
+HasShipped(tr) == Kinds(tr) \cap {"RU", "RD", "CF", "CL"} # {}
+Shippable(tr) == "P3" \in Kinds(tr) /\ Kinds(tr) \cap {"P2", "P2b", "P3b", "PTb"} = {} /\ ~HasShipped(tr)
+VecArg(tr) == IF "CL" \in Kinds(tr) THEN "vec2" ELSE "vec"
+
 -----------------------------------------------------------------------------
 (* PROPERTY: pointwise semantics                                           *)
 (* evaluation points (x, y, z) and times, in units of 1/Q                  *)
@@ -153,24 +173,43 @@ Pts == << [x |-> 1 * Q, y |-> 0,      z |-> 1 * Q],
 Times == {0, 1 * Q, 3 * Q}
 \* the leaves used by the binding:  P2 = x + 2y - a (a=2),  P3 = x - y + z + b (b=1),
 \* PT = x + 2z - c + t (c=1),  I = 2,  F = 0.5
+\* vector-valued leaves are evaluated per component: p in 4..12 is (point, component) = ((p - 4) \div 3 + 1, (p - 4) % 3 + 1)
+PtOf(p) == IF p <= 3 THEN p ELSE ((p - 4) \div 3) + 1
+CompOf(p) == IF p <= 3 THEN 0 ELSE ((p - 4) % 3) + 1
+\* the documented linear ramp: initial before tmin, final from tmax on, linear in between (written here, not taken from the package)
+Ramp(t, tmin, tmax, ini, fin) == IF t < tmin THEN ini
+                                 ELSE IF t < tmax THEN ini + ((fin - ini) * (t - tmin)) \div (tmax - tmin) ELSE fin
 LeafVal(k, p, t) ==
-  CASE k = "P2" -> Pts[p].x + 2 * Pts[p].y - 2 * Q
-    [] k = "P3" -> Pts[p].x - Pts[p].y + Pts[p].z + Q
-    [] k = "PT" -> Pts[p].x + 2 * Pts[p].z - Q + t
+  CASE k = "P2" -> Pts[PtOf(p)].x + 2 * Pts[PtOf(p)].y - 2 * Q
+    [] k = "P3" -> Pts[PtOf(p)].x - Pts[PtOf(p)].y + Pts[PtOf(p)].z + Q
+    [] k = "PT" -> Pts[PtOf(p)].x + 2 * Pts[PtOf(p)].z - Q + t
     [] k = "I" -> 2 * Q
     [] k = "F" -> Q \div 2
     \* twins: another leaf of the same kind that the library's == cannot tell from the first (same function code and
     \* keyword names; the difference lives in a closure cell / in an array keyword below the comparison tolerance)
     \* but that computes other values:  P2b = P2 - 4,  P3b = P3 + 2,  PTb = PT - 3
-    [] k = "P2b" -> Pts[p].x + 2 * Pts[p].y - 2 * Q - 4 * Q
-    [] k = "P3b" -> Pts[p].x - Pts[p].y + Pts[p].z + Q + 2 * Q
-    [] k = "PTb" -> Pts[p].x + 2 * Pts[p].z - Q + t - 3 * Q
+    [] k = "P2b" -> Pts[PtOf(p)].x + 2 * Pts[PtOf(p)].y - 2 * Q - 4 * Q
+    [] k = "P3b" -> Pts[PtOf(p)].x - Pts[PtOf(p)].y + Pts[PtOf(p)].z + Q + 2 * Q
+    [] k = "PTb" -> Pts[PtOf(p)].x + 2 * Pts[PtOf(p)].z - Q + t - 3 * Q
+    \* leaves shipped with the package (tdgl.sources), against formulas written here:
+    \*   RU = LinearRamp(tmin=0.5, tmax=2.5, initial=-0.5, final=1.5)   RD = LinearRamp(tmin=0.5, tmax=2.5, initial=1, final=0.25)
+    \*   CF = ConstantField(2): the vector potential (-(y - yc), x - xc, 0) B/2 of a uniform field B = 2
+    \*   CL = CurrentLoop(current, radius, center): counted in units of the loop's own vector potential at the point and
+    \*        component (reference computed by the binding by direct quadrature of the Biot-Savart line integral); only
+    \*        expressions that are linear and homogeneous in CL are built on it, and only the x, y components are read
+    [] k = "RU" -> Ramp(t, Q \div 2, 5 * (Q \div 2), -(Q \div 2), 3 * (Q \div 2))
+    [] k = "RD" -> Ramp(t, Q \div 2, 5 * (Q \div 2), Q, Q \div 4)
+    \*        (the documented gauge: centred on the bounding box of the points it is evaluated on - here x in [0, 1.5], y in [0, 1])
+    [] k = "CF" -> (CASE CompOf(p) = 1 -> -(Pts[PtOf(p)].y - Q \div 2) [] CompOf(p) = 2 -> Pts[PtOf(p)].x - 3 * (Q \div 4)
+                      [] CompOf(p) = 3 -> 0 [] OTHER -> U)
+    [] k = "CL" -> (IF CompOf(p) \in {1, 2} THEN Q ELSE U)
 
 RECURSIVE Eval(_, _, _)
 Eval(tr, p, t) == IF IsLeaf(tr) THEN LeafVal(tr.k, p, t)
                   ELSE Apply(tr.op, Eval(tr.l, p, t), Eval(tr.r, p, t))
 
-TimeDep(tr) == Kinds(tr) \cap {"PT", "PTb"} # {}
+TdKinds == {"PT", "PTb", "RU", "RD"}
+TimeDep(tr) == Kinds(tr) \cap TdKinds # {}
 
 \* argument forms: (x, y) | (x, y, z) | (x, y, t=) | (x, y, z, t=)
 Forms == {"F2", "F3", "F2T", "F3T"}
@@ -189,10 +228,13 @@ Expect(tr, f) == IF ~DimsFit(tr, f) THEN "fail"
 Args == {"s1", "s2", "s3", "arr"}
 ArgPts(a) == CASE a = "s1" -> <<1>> [] a = "s2" -> <<2>> [] a = "s3" -> <<3>> [] a = "arr" -> <<1, 2, 3>>
                [] a = "arr2" -> <<3, 1, 2>> [] a = "arr3" -> <<2, 2, 1>>
+               \* the (3, 3) array a vector-valued expression returns for the three points, row by row; its x, y columns
+               [] a = "vec" -> <<4, 5, 6, 7, 8, 9, 10, 11, 12>> [] a = "vec2" -> <<4, 5, 7, 8, 10, 11>>
 \* how the points of an array call are DELIVERED over a sequence of calls: array contents arr / arr2 / arr3 (same shape)
 \* in  "b1" an owned buffer overwritten in place between calls | "v1" a slice of a larger base buffer, overwritten in place
 \*   | "s1" a strided view of a base buffer, overwritten in place | "tmp" temporaries created for the call and dropped
 ArrArgs == {"arr", "arr2", "arr3"}
+VecArgs == {"vec", "vec2"}
 Bufs == {"b1", "v1", "s1", "tmp"}
 EvalAt(tr, a, t) == [n \in 1..Len(ArgPts(a)) |-> Eval(tr, ArgPts(a)[n], t)]
 
@@ -200,7 +242,7 @@ EvalAt(tr, a, t) == [n \in 1..Len(ArgPts(a)) |-> Eval(tr, ArgPts(a)[n], t)]
 (* MECHANISM                                                               *)
 \* time_dependent as the class computes it: from the flags of the two operands
 RECURSIVE TdMech(_)
-TdMech(tr) == IF IsLeaf(tr) THEN tr.k \in {"PT", "PTb"} ELSE TdMech(tr.l) \/ TdMech(tr.r)
+TdMech(tr) == IF IsLeaf(tr) THEN tr.k \in TdKinds ELSE TdMech(tr.l) \/ TdMech(tr.r)
 B2S(b) == IF b THEN "T" ELSE "F"
 
 \* __init__ reads operand._use_cache of a time-dependent operand; a composite operand has that slot only
@@ -216,7 +258,7 @@ ParamPaths(tr, p) == IF IsLeaf(tr) THEN (IF IsNum(tr) THEN {} ELSE {p})
                      ELSE {p} \cup ParamPaths(tr.l, p \o "l") \cup ParamPaths(tr.r, p \o "r")
 \* operands that cache: time-dependent leaf parameters below a composite
 RECURSIVE CachingPaths(_, _)
-CachingPaths(tr, p) == IF IsLeaf(tr) THEN (IF tr.k \in {"PT", "PTb"} /\ p # "o" THEN {p} ELSE {})
+CachingPaths(tr, p) == IF IsLeaf(tr) THEN (IF tr.k \in TdKinds /\ p # "o" THEN {p} ELSE {})
                        ELSE CachingPaths(tr.l, p \o "l") \cup CachingPaths(tr.r, p \o "r")
 
 \* _clear_cache: result [ok, c = paths whose cache was emptied]
@@ -244,8 +286,16 @@ RECURSIVE LibEq(_, _)
 LibEq(a, b) == IF IsLeaf(a) \/ IsLeaf(b) THEN IsLeaf(a) /\ IsLeaf(b) /\ BaseKind(a.k) = BaseKind(b.k)
                ELSE a.op = b.op /\ LibEq(a.l, b.l) /\ LibEq(a.r, b.r)
 \* evaluation as the class does it: both operands are evaluated (a mutant reuses the left value for an "equal" right one)
+\* a leaf as the shipped function computes it (a mutant clamps the interpolated ramp between initial and final)
+MinI(a, b) == IF a < b THEN a ELSE b
+LeafMech(k, p, t) == IF MRampClamp /\ k \in {"RU", "RD"}
+                     THEN LET ini == IF k = "RU" THEN -(Q \div 2) ELSE Q
+                              fin == IF k = "RU" THEN 3 * (Q \div 2) ELSE Q \div 4
+                              v == ini + ((fin - ini) * (t - Q \div 2)) \div (2 * Q)
+                          IN MinI(Max(v, ini), fin)
+                     ELSE LeafVal(k, p, t)
 RECURSIVE EvalMech(_, _, _)
-EvalMech(tr, p, t) == IF IsLeaf(tr) THEN LeafVal(tr.k, p, t)
+EvalMech(tr, p, t) == IF IsLeaf(tr) THEN LeafMech(tr.k, p, t)
                       ELSE LET lv == EvalMech(tr.l, p, t) IN
                            IF MReuseEqual /\ IsParam(tr.l) /\ IsParam(tr.r) /\ LibEq(tr.l, tr.r) THEN Apply(tr.op, lv, lv)
                            ELSE Apply(tr.op, lv, EvalMech(tr.r, p, t))
@@ -279,7 +329,13 @@ Twin == /\ pc = "grow" /\ HasEqualOperands(tree) /\ ~HasTwin(tree)
         /\ tree' = Twinned(tree) /\ pc' = "twin"
         /\ UNCHANGED <<orig, copy, pickled, last, ncalls>>
 
-Build == /\ pc \in {"grow", "twin"} /\ IsParam(tree)
+\* the expression on shipped leaves (explored next to the expression itself)
+Ship == /\ pc = "grow" /\ Shippable(tree)
+        /\ \E v \in {1, 2} : tree' = ShipSub(tree, v)
+        /\ pc' = "ship"
+        /\ UNCHANGED <<orig, copy, pickled, last, ncalls>>
+
+Build == /\ pc \in {"grow", "twin", "ship"} /\ IsParam(tree)
          /\ IF BuildOK(tree)
             THEN /\ pc' = "built"
                  /\ orig' = [Obj0 EXCEPT !.alive = TRUE, !.td = B2S(TdMech(tree))]
@@ -316,14 +372,14 @@ StaleArg(o, f, b, t, a) == IF MCacheKeyBuffer /\ \E e \in o.bufs : e[1] = f /\ e
                            THEN (CHOOSE e \in o.bufs : e[1] = f /\ e[2] = b /\ e[3] = t)[4] ELSE a
 RECURSIVE EvalD(_, _, _, _, _)
 EvalD(tr, pcur, pold, t, root) ==
-  IF IsLeaf(tr) THEN (IF tr.k \in {"PT", "PTb"} /\ ~root THEN LeafVal(tr.k, pold, t) ELSE LeafVal(tr.k, pcur, t))
+  IF IsLeaf(tr) THEN (IF tr.k \in TdKinds /\ ~root THEN LeafMech(tr.k, pold, t) ELSE LeafMech(tr.k, pcur, t))
   ELSE Apply(tr.op, EvalD(tr.l, pcur, pold, t, FALSE), EvalD(tr.r, pcur, pold, t, FALSE))
 Deliver(f, t, a, b, fill) ==
-  /\ pc = "built" /\ a \in ArrArgs /\ b \in Bufs
+  /\ pc = "built" /\ a \in ArrArgs \cup VecArgs /\ b \in Bufs
   /\ fill \subseteq ParamPaths(tree, "o")
   /\ LET sa == StaleArg(orig, f, b, t, a) IN
        last' = [what |-> "deliver", f |-> f, t |-> t, a |-> a, b |-> b, kind |-> Expect(tree, f),
-                vals |-> [n \in 1..3 |-> EvalD(tree, ArgPts(a)[n], ArgPts(sa)[n], t, TRUE)]]
+                vals |-> [n \in 1..Len(ArgPts(a)) |-> EvalD(tree, ArgPts(a)[n], ArgPts(sa)[n], t, TRUE)]]
   /\ orig' = [orig EXCEPT !.filled = orig.filled \cup fill,
                           !.bufs = IF b # "tmp" /\ Expect(tree, f) = "val" /\ ~\E e \in orig.bufs : e[1] = f /\ e[2] = b /\ e[3] = t
                                    THEN orig.bufs \cup {<<f, b, t, a>>} ELSE orig.bufs]
@@ -387,7 +443,10 @@ MCall == pc = "built" /\ \E f \in Forms, t \in Times :
            /\ Call(f, t, FillOf(f))
 \* at most two deliveries, into the same owned buffer, at one time, in the argument form the expression answers
 ValForm(f) == Expect(tree, f) = "val" /\ f = (IF TimeDep(tree) THEN "F3T" ELSE IF DimsFit(tree, "F3") THEN "F3" ELSE "F2")
-MDeliver == pc = "built" /\ ncalls < 2 /\ last.what \in {"none", "deliver"}
+\* an expression on shipped leaves: the whole (3, 3) array at each time
+MShipDeliver == pc = "built" /\ HasShipped(tree) /\ ncalls < 1 /\ last.what = "none"
+                /\ \E f \in Forms, t \in Times : ValForm(f) /\ t \in CallTimes(f) /\ Deliver(f, t, VecArg(tree), "tmp", {})
+MDeliver == pc = "built" /\ ~HasShipped(tree) /\ ncalls < 2 /\ last.what \in {"none", "deliver"}
             /\ \E f \in Forms, a \in ArrArgs :
                   /\ ValForm(f) /\ (last.what = "deliver" => last.a # a)
                   /\ Deliver(f, IF FormHasT(f) THEN Q ELSE 0, a, "b1", FillOf(f))
@@ -396,13 +455,13 @@ MEq == last.what = "none" /\ \E other \in Variants(tree) : Eq(other)
 MPickle == pc = "cleared" /\ Pickle
 MClearCopy == last.what # "clear" /\ ClearCopy
 MSolve == pc = "copied" /\ Solve
-Next == Grow \/ Twin \/ Build \/ MDeliver \/ MCall \/ MEq \/ Clear \/ MPickle \/ Unpickle \/ MCallCopy \/ MClearCopy \/ MSolve
+Next == Grow \/ Twin \/ Ship \/ Build \/ MShipDeliver \/ MDeliver \/ MCall \/ MEq \/ Clear \/ MPickle \/ Unpickle \/ MCallCopy \/ MClearCopy \/ MSolve
 
 Spec == Init /\ [][Next]_vars
 
 -----------------------------------------------------------------------------
 (* PROPERTY clauses (C16; PickleRoundTrip also C14)                        *)
-TypeOK == /\ pc \in {"grow", "twin", "built", "failed", "cleared", "pickled", "copied", "solved"}
+TypeOK == /\ pc \in {"grow", "twin", "ship", "built", "failed", "cleared", "pickled", "copied", "solved"}
           /\ Level(tree) <= MaxLevel /\ ncalls \in 0..2
 
 \* a call that must answer answers the pointwise combination of its operands' values; a call that must
@@ -425,7 +484,7 @@ SolverAcceptsComposite == last.what = "solve" => (last.ok <=> AllLeaves3D(tree))
 \* which trees the binding hands to the real solver (leaves concretised as a vector potential, a scalar
 \* ramp and numbers): three-dimensional leaves, a field somewhere, and operators that keep it finite
 OkOp(n) == n.op \in {"add", "sub", "mul"} \/ (n.op = "div" /\ IsNum(n.r))
-SolverDomain(tr) == /\ AllLeaves3D(tr) /\ "P3" \in Kinds(tr) /\ ~HasTwin(tr)
+SolverDomain(tr) == /\ AllLeaves3D(tr) /\ "P3" \in Kinds(tr) /\ ~HasTwin(tr) /\ ~HasShipped(tr)
                     /\ \/ IsLeaf(tr)
                        \/ /\ OkOp(tr)
                           /\ \A c \in {tr.l, tr.r} : IsLeaf(c) \/ (Level(c) = 1 /\ OkOp(c))
@@ -434,7 +493,7 @@ SolverDomain(tr) == /\ AllLeaves3D(tr) /\ "P3" \in Kinds(tr) /\ ~HasTwin(tr)
 TimeSeq == <<0, 1 * Q, 3 * Q>>
 Emit == (pc \in {"built", "failed"} /\ last.what = "none") =>
           PrintT(ToJson([tree |-> tree, td |-> TimeDep(tree), level |-> Level(tree), h |-> H(tree),
-                         solver |-> SolverDomain(tree), twin |-> HasTwin(tree),
+                         solver |-> SolverDomain(tree), twin |-> HasTwin(tree), ship |-> HasShipped(tree),
                          eqs |-> IF HasTwin(tree) THEN {} ELSE SameFlat(tree),
                          expect |-> [f \in Forms |-> Expect(tree, f)],
                          vals |-> [f \in Forms |-> [n \in 1..3 |-> [a \in Args |-> EvalAt(tree, a, TimeSeq[n])]]]]))
